@@ -445,9 +445,24 @@ func legacySuffixRule(c *Ctx, prop string, pkgs []string, methods map[string]boo
 		reach := map[string]bool{}
 		for _, f := range pkgFuncs(p, rel) {
 			sites := suffixSites(f)
+			// a suffix kept in a field of the object ([]byte{0} stored by the constructor under the
+			// legacy condition, appended here whatever its content): the condition is judged where
+			// the field is set
+			fieldSites := fieldSuffixSites(p, f)
+			condAt := map[ssa.Instruction]ssa.Instruction{}
+			for use, stores := range fieldSites {
+				for _, st := range stores {
+					sites = append(sites, st)
+					condAt[st] = use
+				}
+			}
 			for _, s := range sites {
 				nSites++
 				key := fmt.Sprintf("%s/%s/suffix condition", rule, core.FuncID(f))
+				if use, isField := condAt[s]; isField {
+					key = fmt.Sprintf("%s/%s/suffix condition (field set in %s)", rule, core.FuncID(f), s.Parent().Name())
+					_ = use
+				}
 				var conds []string
 				good := true
 				for _, fct := range guard.InstrFacts(s) {
@@ -1020,4 +1035,79 @@ func c03BitBytes(c *Ctx) {
 	if n == 0 {
 		r.Ok("C03.bitbytes", "C03.bitbytes/none", "-", "no floor division of a bit count")
 	}
+}
+
+// fieldSuffixSites: append sites of f whose appended operand is a []byte field
+// of the receiver that only constructors set, always to the single byte 0x00
+// (or leave nil): use site -> the stores of the field.
+func fieldSuffixSites(p *core.Program, f *ssa.Function) map[ssa.Instruction][]ssa.Instruction {
+	out := map[ssa.Instruction][]ssa.Instruction{}
+	if f.Signature.Recv() == nil {
+		return out
+	}
+	allInstrs(f, func(ins ssa.Instruction) {
+		call, ok := ins.(ssa.CallInstruction)
+		if !ok {
+			return
+		}
+		n := guard.CalleeName(call.Common())
+		if !(n == "slices.Concat" || n == "append" || strings.HasSuffix(n, ").Write")) {
+			return
+		}
+		var cands []ssa.Value
+		for _, a := range call.Common().Args {
+			cands = append(cands, a)
+			if sl, ok := a.(*ssa.Slice); ok {
+				if al, ok := sl.X.(*ssa.Alloc); ok {
+					for _, ref := range *al.Referrers() {
+						if ia, ok := ref.(*ssa.IndexAddr); ok {
+							for _, r2 := range *ia.Referrers() {
+								if st, ok := r2.(*ssa.Store); ok {
+									cands = append(cands, st.Val)
+								}
+							}
+						}
+					}
+				}
+			}
+		}
+		for _, a := range cands {
+			u, isU := guard.Strip(a).(*ssa.UnOp)
+			if !isU || u.Op != token.MUL || !core.IsByteSlice(u.Type()) {
+				continue
+			}
+			fa, isFA := u.X.(*ssa.FieldAddr)
+			if !isFA || guard.Strip(fa.X) != ssa.Value(f.Params[0]) {
+				continue
+			}
+			var stores []ssa.Instruction
+			okAll := true
+			for _, g := range p.SortedFuncs(core.Product) {
+				if g.Pkg != f.Pkg {
+					continue
+				}
+				allInstrs(g, func(i2 ssa.Instruction) {
+					fa2, ok := i2.(*ssa.FieldAddr)
+					if !ok || fa2.Field != fa.Field || !types.Identical(fa2.X.Type(), fa.X.Type()) {
+						return
+					}
+					_, fresh := guard.Strip(fa2.X).(*ssa.Alloc)
+					for _, ref := range *fa2.Referrers() {
+						if st, isSt := ref.(*ssa.Store); isSt && st.Addr == ssa.Value(fa2) {
+							if !fresh || !(zeroByteSlice(st.Val) || guard.IsNilConst(st.Val)) {
+								okAll = false
+							}
+							if zeroByteSlice(st.Val) {
+								stores = append(stores, st)
+							}
+						}
+					}
+				})
+			}
+			if okAll && len(stores) > 0 {
+				out[ins] = stores
+			}
+		}
+	})
+	return out
 }
